@@ -1,12 +1,13 @@
 #!/usr/bin/env python3
 """C11 - solver option parsing is total, faithful and ordered (Options.tla)."""
 import binascii, concurrent.futures as cf
-import json, os, random, re, sys, time
+import json, shutil, os, random, re, sys, time
 sys.path.insert(0, os.path.join(os.path.dirname(os.path.abspath(__file__)), "..", "tools"))
 from vlib import *
 import targets
 
 PID = "C11"
+OPTDIR = os.path.join(BUILD, "run", "C11-optfiles")
 CORE = os.path.join(SPECS, "core")
 CHUNK = 5000
 MINE = ("alg:iter", "alg:mode", "tol:gap", "tech:log", "tech:quiet", "lim:*:wt")
@@ -105,6 +106,7 @@ def render_item(it, rnd):
 def concretize(case, cid, rnd):
     """abstract case -> the inputs of one ParseOptions call"""
     env = {"mp": None, "exe": None, "nam": None, "argv": []}
+    parts = {}
     if case["fam"] == "cls":
         text = render_cls(case["s"], rnd)
         where = rnd.choice(["mp", "mp", "mp", "mp", "nam", "nam", "exe", "argv", "argv", "argv"])
@@ -115,7 +117,6 @@ def concretize(case, cid, rnd):
             env[where] = text
     else:
         exe_known = case["exeKnown"]
-        parts = {}
         for st in case["h"]:
             parts.setdefault(st["src"], []).append(render_item(st["it"], rnd))
         for src, items in parts.items():
@@ -128,7 +129,33 @@ def concretize(case, cid, rnd):
         for src in ("a1", "a2"):
             if src in parts:
                 env["argv"].append(b" ".join(parts[src]))
-    return {"id": cid, "echo": rnd.random() < 0.8, "thr": rnd.random() < 0.25, "exeKnown": exe_known, "env": env}
+    # option files: with a seeded probability one source of a history names an option file instead of carrying the
+    # text itself.  `env` stays what the spec is told (the text as if included; for an argument: the file's content,
+    # flagged in argvFile); `real` is what the driver gets; `files` are written before the run.
+    real = {"mp": env["mp"], "exe": env["exe"], "nam": env["nam"], "argv": list(env["argv"])}
+    files = {}
+    env["argvFile"] = [False] * len(env["argv"])
+    if case["fam"] != "cls" and rnd.random() < 0.3:
+        srcs = [s_ for s_ in parts if parts[s_]]
+        src = rnd.choice(srcs)
+        path = os.path.join(OPTDIR, "c%d.opt" % cid).encode()
+        if src in ("a1", "a2"):
+            k = [s_ for s_ in ("a1", "a2") if s_ in parts].index(src)
+            content = b"\n".join(parts[src]) + b"\n"
+            files[path] = content
+            env["argv"][k] = content
+            env["argvFile"][k] = True
+            real["argv"][k] = rnd.choice([b"tech:optionfile=", b"optionfile=", b"option:file="]) + path
+        elif env.get(src) is not None:
+            items = parts[src]
+            k = rnd.randrange(len(items))
+            n = rnd.choice([1, 1, 2])
+            files[path] = b"\n".join(items[k:k + n]) + b"\n"
+            sep = b" "
+            env[src] = sep.join(items)
+            real[src] = sep.join(items[:k] + [b"tech:optionfile=" + path] + items[k + n:])
+    return {"id": cid, "echo": rnd.random() < 0.8, "thr": rnd.random() < 0.25, "exeKnown": exe_known, "env": env,
+            "real": real, "files": files}
 
 
 # ---------------------------------------------------------------- harness output -> trace lines
@@ -203,6 +230,8 @@ def convert(raw, inputs, table_out):
     ev = []
     for e in raw["ev"]:
         t = unhx(e["t"])
+        if inp["files"] and e["k"] == "o" and re.match(rb"^  tech:optionfile = ", t):
+            continue                 # the echo of the file-naming option itself (not one of the modelled options)
         ev.append(echo(t) if e["k"] == "o" else error(t) if e["k"] == "e" else
                   {"k": "exception", "o": 0, "key": chars(t[:200]), "v": iv(0)})
 
@@ -210,7 +239,7 @@ def convert(raw, inputs, table_out):
     env = inp["env"]
     return {"e": "Run", "id": raw["id"], "echoOn": inp["echo"], "thr": inp["thr"],
             "env": {"mp": src(env["mp"]), "exe": src(env["exe"]), "nam": src(env["nam"]), "exeKnown": inp["exeKnown"],
-                    "argv": [chars(a) for a in env["argv"]]},
+                    "argv": [chars(a) for a in env["argv"]], "argvFile": list(env["argvFile"])},
             "init": store(raw["init"]), "final": store(raw["final"]), "ev": ev,
             "threw": raw["threw"] != "", "rc": raw["rc"]}
 
@@ -260,12 +289,17 @@ def run(tier):
     if len(abstract) < 1000:
         raise Broken("GenOptions produced only %d cases" % len(abstract))
     rnd = random.Random(seed())
+    shutil.rmtree(OPTDIR, ignore_errors=True)
+    os.makedirs(OPTDIR)
     inputs = [concretize(c, i, rnd) for i, c in enumerate(abstract)]
     d = outdir(PID)
     tsv = os.path.join(d, "cases-%s.tsv" % tier)
     with open(tsv, "w") as f:
         for inp in inputs:
-            env = inp["env"]
+            env = inp["real"]
+            for path_, content_ in inp["files"].items():
+                with open(path_, "wb") as of_:
+                    of_.write(content_)
             f.write("\t".join([str(inp["id"]), "1" if inp["echo"] else "0", "1" if inp["thr"] else "0",
                                "1" if inp["exeKnown"] else "0"] +
                               [hx(env[k]) if env[k] is not None else "-" for k in ("mp", "exe", "nam")] +
